@@ -67,7 +67,7 @@ func c19GroupOf(q *UpQuery) int {
 }
 
 func TestVfC19Prefetch(t *testing.T) {
-	st := vfkit.Stats("TestVfC19Prefetch", "runs of 20-80 independent names: TTL in {6,8,10,12} s, entries primed for 1-3 client groups, then a burst of 1-120 concurrent hits per group (from 1, 2 or 4 client addresses of the group) at a drawn instant inside the last quarter of the lifetime; the upstream holds the refresh reply until all burst responses are collected (or 3 s), then the refresh ends as success (new TTL) / NOERROR-NODATA / NXDOMAIN / SERVFAIL / REFUSED / garbage / silence / connection closed, over a UDP or a TCP upstream (where transport errors are immediate); oracles: every hit of the burst is answered from the old entry while the refresh is held, exactly one refresh per group is started and in flight, after a successful refresh later hits carry the new fetch, after a failed or negative refresh the old entry is served until its expiry and not 2 s beyond, and a further hit in the window starts a new refresh (the reservation ended with the refresh); non-trivial = burst >= 2 inside the window")
+	st := vfkit.Stats("TestVfC19Prefetch", "runs of 20-80 independent names: TTL in {6,8,10,12} s, entries primed for 1-3 client groups, then a burst of 1-120 concurrent hits per group (from 1, 2 or 4 client addresses of the group) at a drawn instant inside the last quarter of the lifetime; the upstream holds the refresh reply until all burst responses are collected (or 3 s), then the refresh ends as success (new TTL) / success answered only after the old entry expired / NOERROR-NODATA / NXDOMAIN / SERVFAIL / REFUSED / garbage / silence / connection closed, over a UDP or a TCP upstream (where transport errors are immediate); oracles: every hit of the burst is answered from the old entry while the refresh is held, exactly one refresh per group is started and in flight, after a successful refresh later hits carry the new fetch (without a further upstream query when the reply came after the old expiry), after a failed or negative refresh the old entry is served until its expiry and not 2 s beyond, and a further hit in the window starts a new refresh (the reservation ended with the refresh); non-trivial = burst >= 2 inside the window")
 	defer vfkit.Flush()
 	block := NextIPBlock()
 	var names sync.Map
@@ -103,7 +103,7 @@ func TestVfC19Prefetch(t *testing.T) {
 				a.Gate = n.gate
 			}
 			switch n.outcome {
-			case "success":
+			case "success", "slow-success":
 				a.Reply = EncodeMsg(KeyedAnswer(q.Msg, "c19", uint32(q.Seq), n.newTTL, 0))
 			case "nodata":
 				// a successful answer that says "no such data any more": NOERROR, empty answer section, SOA in the authority
@@ -180,7 +180,7 @@ func TestVfC19Prefetch(t *testing.T) {
 			// lifetime remain, and 150 ms after the start of the window.
 			q := time.Duration(n.ttl) * time.Second / 4
 			n.burstAt = 3*q + 150*time.Millisecond + time.Duration(rapid.IntRange(0, int((q-1450*time.Millisecond)/time.Millisecond)).Draw(t, "intoWindowMs"))*time.Millisecond
-			n.outcome = rapid.SampledFrom([]string{"success", "success", "nodata", "nxdomain", "servfail", "refused", "garbage", "silence", "conn-closed"}).Draw(t, "outcome")
+			n.outcome = rapid.SampledFrom([]string{"success", "success", "slow-success", "nodata", "nxdomain", "servfail", "refused", "garbage", "silence", "conn-closed"}).Draw(t, "outcome")
 			n.viaTCP = rapid.Bool().Draw(t, "viaTCP")
 			n.newTTL = rapid.SampledFrom([]uint32{30, 60}).Draw(t, "newTTL")
 			all[i] = n
@@ -352,9 +352,17 @@ func TestVfC19Prefetch(t *testing.T) {
 					startedBy[g] = n.heldBy[g].Load()
 				}
 				heldNow := n.held.Load()
+				if n.outcome == "slow-success" {
+					// the upstream answers the refresh only after the old entry has expired (but well inside the 6 s an
+					// upstream exchange may take): the refresh is still a successful one
+					time.Sleep(time.Until(lastPrime.Add(time.Duration(n.ttl)*time.Second + 300*time.Millisecond)))
+				}
 				n.gateOpen.Store(true)
 				close(n.gate)
 				collected := time.Now()
+				if n.outcome == "slow-success" && collected.Sub(burstStart) > 4500*time.Millisecond {
+					return // the refresh was held close to its own time limit (slow collection): no verdict for this name
+				}
 				if got < total {
 					// was it lost (UDP) or did it wait for the refresh? anything that arrives after the gate opened waited.
 					time.Sleep(300 * time.Millisecond)
@@ -409,7 +417,7 @@ func TestVfC19Prefetch(t *testing.T) {
 				time.Sleep(400 * time.Millisecond)
 				expiry := lastPrime.Add(time.Duration(n.ttl) * time.Second)
 				for g := range n.groups {
-					if time.Until(expiry) < 1300*time.Millisecond && n.outcome != "success" && n.outcome != "nodata" {
+					if time.Until(expiry) < 1300*time.Millisecond && n.outcome != "success" && n.outcome != "nodata" && n.outcome != "slow-success" {
 						continue // within the cache clock's granularity of the old entry's expiry: cannot be judged
 					}
 					fetchesBefore := n.nonPrime[g].Load()
@@ -427,6 +435,19 @@ func TestVfC19Prefetch(t *testing.T) {
 						}
 						if r.Msg.Rcode() != 0 || len(r.Msg.An) != 0 {
 							fail("%s: after a successful refresh that came back as NOERROR/NODATA, group %d is still served the old positive entry (%d answers, rcode %d)", n.label, g, len(r.Msg.An), r.Msg.Rcode())
+							return
+						}
+					case "slow-success":
+						if !refreshed[g] {
+							continue
+						}
+						idx, _ := n.serials.Load(s)
+						if !ok || s == old[g] || r.Msg.Rcode() != 0 {
+							fail("%s: after a refresh answered after the old entry's expiry group %d is served serial %d (fetch index %v, rcode %d)", n.label, g, s, idx, r.Msg.Rcode())
+							return
+						}
+						if now := n.nonPrime[g].Load(); now != fetchesBefore {
+							fail("%s: the upstream answered the refresh of group %d %.2fs after it was asked (TTL %d, so after the old entry had expired, and well inside the time an upstream exchange may take), yet the next query %.0f ms later was not served from the refreshed entry but fetched again (upstream queries of the group %d -> %d): the answer of a successful refresh was not stored", n.label, g, collected.Sub(burstStart).Seconds(), n.ttl, 400.0, fetchesBefore, now)
 							return
 						}
 					case "success":
@@ -469,7 +490,7 @@ func TestVfC19Prefetch(t *testing.T) {
 					}
 				}
 				n.after.Store(true)
-				if n.outcome != "success" && n.outcome != "nodata" && n.outcome != "silence" && n.outcome != "conn-closed" {
+				if n.outcome != "success" && n.outcome != "slow-success" && n.outcome != "nodata" && n.outcome != "silence" && n.outcome != "conn-closed" {
 					// and not beyond its expiry (+2 s)
 					time.Sleep(time.Until(expiry.Add(2200 * time.Millisecond)))
 					r := ask(0, 70)
